@@ -507,6 +507,7 @@ class Generator(AbstractODSGenerator):
         # Transactions are hashed by internal id (spreadsheet row), which is unique only within one asset: start each asset with an empty
         # transaction-to-row map, otherwise a transaction hidden by the time filter would link to the row of another asset's transaction
         self.__in_out_sheet_transaction_2_row = {}
+        self.__tax_sheet_year_2_row = {}
 
         output_file.sheets += transaction_sheet
         output_file.sheets += output_sheet
@@ -827,7 +828,8 @@ class Generator(AbstractODSGenerator):
             border_suffix: str = ""
             border_style = self.__get_border_style(gain_loss.taxable_event.timestamp.year, year)
             if gain_loss.taxable_event.timestamp.year != year:
-                self.__tax_sheet_year_2_row[_AssetAndYear(asset, gain_loss.taxable_event.timestamp.year)] = row_index + 1
+                # Keep the first row of each year: with mixed time zones rows of two calendar years can interleave around new year
+                self.__tax_sheet_year_2_row.setdefault(_AssetAndYear(asset, gain_loss.taxable_event.timestamp.year), row_index + 1)
             year = border_style.year
             border_suffix = border_style.border_suffix
             transparent_style: str = f"transparent{border_suffix}"
